@@ -70,7 +70,10 @@ struct Args<'a> {
 
 impl<'a> Args<'a> {
     fn next(&mut self) -> Result<&'a str, String> {
-        let f = self.a.get(self.i).ok_or_else(|| "missing field".to_string())?;
+        let f = self
+            .a
+            .get(self.i)
+            .ok_or_else(|| "missing field".to_string())?;
         self.i += 1;
         Ok(f)
     }
@@ -175,11 +178,11 @@ fn rows_per_line(states: &[State]) -> Vec<usize> {
     v
 }
 
-fn simple_sections<'a>(
-    lines: &'a [(String, State)],
-    style: Style,
-) -> Vec<LineSections<'a, Style>> {
-    lines.iter().map(|(l, _)| vec![(style, l.as_str())]).collect()
+fn simple_sections<'a>(lines: &'a [(String, State)], style: Style) -> Vec<LineSections<'a, Style>> {
+    lines
+        .iter()
+        .map(|(l, _)| vec![(style, l.as_str())])
+        .collect()
 }
 
 /// Number of display rows of each minus / plus line of a block (a parameter of the model:
@@ -239,7 +242,10 @@ pub fn handle(op: &str, args: &[&str]) -> Result<String, String> {
             let align = align_of(a.next()?)?;
             let precision = opt_num(a.next()?)?;
             a.done()?;
-            Ok(format!("ok {}", hex(&format::pad(n, width, align, precision))))
+            Ok(format!(
+                "ok {}",
+                hex(&format::pad(n, width, align, precision))
+            ))
         }
         // linenum.config -> ok <side_by_side 0|1> <line_numbers 0|1> x<left format> x<right format>
         "config" => {
@@ -364,7 +370,9 @@ pub fn handle(op: &str, args: &[&str]) -> Result<String, String> {
             let alignment = a.alignment()?;
             a.done()?;
             let mut data = Some(new_data(config));
-            data.as_mut().unwrap().initialize_hunk(&pairs, "f".to_string());
+            data.as_mut()
+                .unwrap()
+                .initialize_hunk(&pairs, "f".to_string());
             let lines = MinusPlus::new(&minus, &plus);
             let wraps = wrap_counts(&lines, &alignment, data.as_ref().unwrap(), config);
             let fw = data.as_ref().unwrap().formatted_width();
@@ -438,7 +446,11 @@ pub fn handle(op: &str, args: &[&str]) -> Result<String, String> {
                 .as_mut()
                 .unwrap()
                 .initialize_hunk(&pairs, "f".to_string());
-            let fw = painter.line_numbers_data.as_ref().unwrap().formatted_width();
+            let fw = painter
+                .line_numbers_data
+                .as_ref()
+                .unwrap()
+                .formatted_width();
             let mut out = format!("ok {nb}");
             for b in blocks {
                 painter.output_buffer.clear();
